@@ -360,6 +360,8 @@ inline std::optional<std::string> loggerIncoherence(const LoggerPtr &l)
 }
 
 // ------------------------------------------------------------------ family runner
+inline std::map<std::string, std::string> g_options; // --key=value arguments
+
 struct Ctx
 {
     uint64_t index = 0;
@@ -427,8 +429,12 @@ inline int harnessMain(int argc, char **argv, const std::vector<Family> &familie
         Ctx ctx;
         ctx.family = f->name;
         for (int a = 5; a < argc; ++a) {
-            if (std::string(argv[a]) == "-v") ctx.verbose = true;
-            else pfd = open(argv[a], O_WRONLY | O_CREAT, 0644);
+            std::string arg = argv[a];
+            if (arg == "-v") ctx.verbose = true;
+            else if (arg.rfind("--", 0) == 0) {
+                size_t eq = arg.find('=');
+                g_options[arg.substr(2, eq == std::string::npos ? std::string::npos : eq - 2)] = eq == std::string::npos ? "1" : arg.substr(eq + 1);
+            } else pfd = open(argv[a], O_WRONLY | O_CREAT, 0644);
         }
         uint64_t n = f->count();
         if (hi > n) hi = n;
